@@ -148,6 +148,9 @@ class HpcSubmitter:
             blocked_jobs = []
             submitted_jobs = []
             for group in self._cluster.config.submission_groups:
+                if self._cluster.is_canceled():
+                    # The user canceled the submission. Only collect results and complete.
+                    break
                 if not queue.is_full():
                     self._submit_batches(queue, group, blocked_jobs, submitted_jobs)
 
